@@ -5,6 +5,10 @@ classes a run must have exercised to count as non-vacuous."""
 PROPS = {}
 
 
+# GODEBUG settings that make run-time CPU feature detection (internal/cpu, golang.org/x/sys/cpu) report an old amd64
+_OLDCPU = {"GODEBUG": "cpu.avx2=off,cpu.avx=off,cpu.bmi2=off,cpu.adx=off,cpu.sse41=off,cpu.ssse3=off"}
+
+
 def _bug(spec, params, bug, inv, **kw):
     """non-vacuity: the same model with one deliberately wrong design (VERIF_BUG) must violate the named invariant"""
     d = {"spec": spec, "params": params, "cfg": spec + ".cfg", "env": {"VERIF_MCFULL": "0", "VERIF_BUG": bug}, "expect_violation": inv, "label": spec + "[" + bug + "]"}
@@ -144,7 +148,9 @@ PROPS["C05"] = {
     "exhaustive": _MUL_A[:1] + [_MUL_A[1]],
     "drivers": [{"driver": "basemul", "trace": "Trace_Point"},
                 {"driver": "basemul", "trace": "Trace_Point", "tags": ("verif", "purego")},         # both lookup configurations
-                {"driver": "basemul", "trace": "Trace_Point", "tags": ("verif", "purego"), "goarch": "386"}],   # ... and a 32-bit word size
+                {"driver": "basemul", "trace": "Trace_Point", "tags": ("verif", "purego"), "goarch": "386"},    # ... and a 32-bit word size
+                # ... and the assembly build on a CPU without the newer vector extensions (run-time dispatch, if any, takes its fallback)
+                {"driver": "basemul", "trace": "Trace_Point", "env": _OLDCPU, "cfg": "-oldcpu"}],
     "require_classes": {"quick": ["tbl_huge", "tbl_odd", "tbl_row", "bm_single_byte", "bm_zero_nibble", "bm_edge", "bm_priv", "bm_priv_after_derive", "bm_recycled", "dsm_window_meet"]},
     "assumptions": ["table entries are exhaustively checked (finite set); multiplications on multi-byte scalars are sampled"],
     "min_counts": {"tbl_huge": 8160, "tbl_odd": 480, "tbl_row": 32, "bm_single_byte": 16320},
@@ -217,7 +223,7 @@ PROPS["C07"] = {
     "drivers": [{"driver": "verify", "trace": "Trace_Ecdsa"},
                 {"driver": "verify", "trace": "Trace_Ecdsa", "goarch": "386", "tiers": ("thorough",)}],
     "require_classes": {"quick": ["r_zero", "s_zero", "high_s_rej", "high_s_acc", "x_ge_n", "R_inf", "e_zero", "digest_ge_n", "digest_short",
-                                  "digest_long", "accept", "reject", "enc_asn1", "enc_compact", "enc_rec", "enc_bogus", "rec_wrong_v", "btc_accept",
+                                  "digest_long", "digest_huge", "accept", "reject", "enc_asn1", "enc_compact", "enc_rec", "enc_bogus", "rec_wrong_v", "btc_accept",
                                   "btc_badenv", "btc_high_s", "hash_mismatch", "parse_reject", "cmp_shift_n", "alt_path", "nil_opts", "after_scribble", "near_miss_r"]},
     "assumptions": ["full-size inputs are constructed per corner class and decided by an exact oracle; all inputs are enumerated only on miniature curves"],
 }
@@ -263,7 +269,7 @@ PROPS["C09"] = {
     "drivers": [{"driver": "nonce", "trace": "Trace_Ecdsa", "shards": 16}],
     "require_classes": {"quick": ["reader_short_reads", "reader_fail_0", "reader_fail_mid", "reader_fail_31", "reader_err_with_last", "reader_ok",
                                   "same_triple", "entropy_one_byte_diff", "constant_entropy_diff_msg", "nil_rand", "wiped_import", "digest_scribbled", "sample_first", "sample_after_zero",
-                                  "sample_after_ge_n", "sample_exhausted", "sample_short", "sample_edge_accept", "drbg_multi", "drbg_vector", "rfc6979",
+                                  "sample_after_ge_n", "sample_exhausted", "sample_short", "sample_edge_accept", "drbg_multi", "drbg_vector", "rfc6979", "rfc6979_short_nonce",
                                   "inadmissible_len"]},
     "assumptions": ["statistical unbiasedness is not decided, only the structural rule (reject, never reduce; bounded retries)",
                     "a rejected candidate inside a full Sign call needs a 2^-128 event; the sampler, the DRBG and the sign step are each checked and composed only in the model"],
@@ -282,7 +288,7 @@ PROPS["C10"] = {
     "drivers": [{"driver": "keys", "trace": "Trace_Ecdsa"},
                 {"driver": "keys", "trace": "Trace_Ecdsa", "goarch": "386", "tiers": ("thorough",)}],
     "require_classes": {"quick": ["priv_ok", "priv_zero", "priv_ge_n", "priv_badlen", "pub_ok_unc", "pub_ok_cmp", "pub_identity", "pub_invalid",
-                                  "pub_twist", "ecdh_ok", "ecdh_edge", "ecdh_repeat", "key_immutable", "rec_q_inf", "key_after_rejected_decode"]},
+                                  "pub_twist", "ecdh_ok", "ecdh_edge", "ecdh_repeat", "key_immutable", "rec_q_inf", "key_after_rejected_decode", "pub_from_recycled_point"]},
     "assumptions": ["full-size keys are sampled per class with an exact oracle"],
 }
 
@@ -297,7 +303,7 @@ PROPS["C11"] = {
     "exhaustive": _ECDSA_A,
     "drivers": [{"driver": "recover", "trace": "Trace_Ecdsa"},
                 {"driver": "recover", "trace": "Trace_Ecdsa", "goarch": "386", "tiers": ("thorough",)}],
-    "require_classes": {"quick": ["rec_v_ge4", "rec_hi_ok", "rec_hi_overflow", "rec_not_x", "rec_q_inf", "rec_rs_zero", "rec_ok", "accept", "digest_ge_n", "digest_long", "kept_key", "sig_stable"]},
+    "require_classes": {"quick": ["rec_v_ge4", "rec_hi_ok", "rec_hi_overflow", "rec_not_x", "rec_q_inf", "rec_rs_zero", "rec_ok", "accept", "digest_ge_n", "digest_long", "digest_huge", "kept_key", "sig_stable"]},
     "assumptions": ["full-size inputs are constructed per corner class and decided by an exact oracle"],
 }
 
@@ -403,7 +409,7 @@ PROPS["C15"] = {
     ],
     "drivers": [{"driver": "h2c", "trace": "Trace_H2C"},
                 {"driver": "h2c", "trace": "Trace_H2C", "goarch": "386"}],                  # length arithmetic where int is 32 bits wide
-    "require_classes": {"quick": ["suite_ro", "suite_nu", "dst_1", "dst_254", "dst_255", "dst_256", "dst_257", "dst_long", "dst_wide", "dst_empty", "msg_empty",
+    "require_classes": {"quick": ["suite_ro", "suite_nu", "dst_1", "dst_254", "dst_255", "dst_256", "dst_257", "dst_long", "dst_wide", "u_short", "dst_empty", "msg_empty",
                                   "msg_long", "uni_len_32", "uni_len_48", "uni_len_64", "uni_len_other", "uni_ge_p", "uni_panic", "u_zero", "u_one",
                                   "u_pm1", "u_exceptional", "gx1_square", "gx1_nonsquare", "u_odd", "u_even", "y_flipped", "xmd_ok", "xmd_err",
                                   "xmd_len_edge", "xmd_ell_max", "xmd_vector", "iso_ok", "swu_ok", "suite_vector", "pure"]},
@@ -496,6 +502,8 @@ PROPS["C19"] = {
     "drivers": [
         {"driver": "lookup", "trace": "Trace_Lookup", "shards": 4},
         {"driver": "lookup", "trace": "Trace_Lookup", "shards": 4, "tags": _PG},
+        {"driver": "lookup", "trace": "Trace_Lookup", "shards": 4, "env": _OLDCPU, "cfg": "-oldcpu"},      # the assembly build where run-time CPU feature dispatch (if any) falls back
+        {"driver": "basemul", "trace": "Trace_Point", "env": _OLDCPU, "cfg": "-oldcpu"},
         {"driver": "point", "trace": "Trace_Point", "post": _same_traces, "pair_key": "point"},
         {"driver": "point", "trace": "Trace_Point", "tags": _PG, "post": _same_traces, "pair_key": "point"},
         {"driver": "mul", "trace": "Trace_Point", "post": _same_traces, "pair_key": "mul"},
@@ -601,7 +609,7 @@ PROPS["C17"] = {
         {"driver": "lookup", "trace": "Trace_Lookup", "shards": 4},
         {"driver": "lookup", "trace": "Trace_Lookup", "shards": 4, "tags": _PG},
     ],
-    "require_classes": {"quick": ["obs_first", "obs_same", "secret_zero_heavy", "secret_f_heavy", "secret_one", "secret_nm1", "secret_random", "secret_neg_half",
+    "require_classes": {"quick": ["obs_first", "obs_same", "secret_zero", "secret_zero_heavy", "secret_f_heavy", "secret_one", "secret_nm1", "secret_random", "secret_neg_half",
                                   "secret_pos_half", "secret_odd_y", "secret_even_y", "control_differs", "func_ct_covered", "func_vartime_unreached",
                                   "build_asm", "build_purego", "op_field", "op_scalar", "op_mult", "op_basemult", "op_msm", "op_key", "op_ecdh", "op_sign",
                                   "op_schnorr", "touch_ct", "touch_vartime_differs"]},
